@@ -78,6 +78,8 @@ def worker_main(a):
     sigs = set()
     sites = set()
     lines = set()
+    isites = set()
+    ilines = set()
     digests = []
     samples = []
     nt_capped = False
@@ -137,6 +139,8 @@ def worker_main(a):
         sigs |= ctx.sigs
         sites |= ctx.switch_sites
         lines |= ctx.lines_seen
+        isites |= ctx.instr_sites
+        ilines |= ctx.instr_seen
         if idx < a["digest_runs"]:
             digests.append([idx, ctx.digest.hex(), ctx.numdigest.hex()])
         if len(samples) < 1 and v is None and len(ctx.ops_out) > 3 and k >= 1:
@@ -166,7 +170,7 @@ def worker_main(a):
     ntf = os.path.join(a["scratch"], "nt-%d.bin" % a["start"])
     with open(ntf, "wb") as f:
         array.array("Q", sorted(nt)).tofile(f)
-    agg.update({"nt_file": ntf, "nt_capped": nt_capped, "sigs": len(sigs), "sites": sorted(map(list, sites)), "lines": sorted(map(list, lines)), "digests": digests, "samples": samples})
+    agg.update({"nt_file": ntf, "nt_capped": nt_capped, "sigs": len(sigs), "sites": sorted(map(list, sites)), "lines": sorted(map(list, lines)), "isites": len(isites), "ilines": len(ilines), "digests": digests, "samples": samples})
     sgf = os.path.join(a["scratch"], "sig-%d.json" % a["start"])
     with open(sgf, "w") as f:
         json.dump(sorted(sigs), f)
@@ -334,6 +338,7 @@ def finish(prop, tier, seed, t0, scratch, summaries, hs_summ, viols, herr, W, n_
 
     known = load_known()
     agg = {"runs": 0, "evaluations": 0, "steps": 0, "ops": 0, "entropy_calls": 0, "runs_with_threads": 0}
+    imax = [0, 0]
     stats, faults, probes, uncaught = {}, {}, {}, {}
     nt = set()
     sigs = set()
@@ -356,6 +361,7 @@ def finish(prop, tier, seed, t0, scratch, summaries, hs_summ, viols, herr, W, n_
             nt.update(arr)
         if s.get("sig_file") and os.path.exists(s["sig_file"]):
             sigs.update(json.load(open(s["sig_file"])))
+        imax = [max(imax[0], s.get("isites", 0)), max(imax[1], s.get("ilines", 0))]
         sites.update(tuple(x) for x in s.get("sites", []))
         lines.update(tuple(x) for x in s.get("lines", []))
         samples += s.get("samples", [])
@@ -424,6 +430,7 @@ def finish(prop, tier, seed, t0, scratch, summaries, hs_summ, viols, herr, W, n_
             "switches_while_other_call_in_flight": stats.get("switches_overlapping", 0),
             "library_lines_switched_at": len(sites),
             "library_lines_executed_under_preemption": len(lines),
+            "instruction_level": {"phases": stats.get("threaded_phases_instruction_level", 0), "instructions_switched_at_max_per_worker": imax[0], "instructions_executed_under_preemption_max_per_worker": imax[1]},
             "strategies": {k[9:]: v for k, v in sorted(stats.items()) if k.startswith("strategy:")},
             "shared_state_writes_observed": stats.get("writes_seen", 0),
             "write_directed_overlay_fired": stats.get("overlay_fired", 0),
